@@ -69,6 +69,7 @@ def expand(facts, body, origins, stop_at=(), depth=0, _seen=None, interproc=Fals
                 _seen.add(key)
                 pp = Prov(par, stop_at=stop_at, interproc=interproc)
                 out |= expand(facts, par, pp.origins_op(agg["ops"][i]), stop_at, depth + 1, _seen, interproc)
+                _seen.discard(key)   # a guard against cycles, not against reaching the same binding twice
             else:
                 out.add(o)
         elif o[0] == "param" and body.kind in ("Fn", "AssocFn"):
@@ -81,6 +82,7 @@ def expand(facts, body, origins, stop_at=(), depth=0, _seen=None, interproc=Fals
                 if o[1] - 1 < len(c.args):
                     cp = Prov(cb, stop_at=stop_at, interproc=interproc)
                     out |= expand(facts, cb, cp.origins_op(c.args[o[1] - 1]), stop_at, depth + 1, _seen, interproc)
+            _seen.discard(key)
         else:
             out.add(o)
     return out
